@@ -433,6 +433,11 @@ func (env *env) pathIntact(v any) bool {
 		switch w.(type) {
 		case []any, map[string]any:
 			v, w := reflect.ValueOf(v), reflect.ValueOf(w)
+			if v.Kind() == reflect.Slice && w.Kind() == reflect.Slice && v.Len() == 0 && w.Len() == 0 {
+				// empty arrays have no identity: zero-size allocations share one
+				// address while an empty slice with capacity keeps its own
+				return true
+			}
 			return v.Pointer() == w.Pointer() && v.Len() == w.Len()
 		}
 	case float64:
